@@ -181,22 +181,47 @@ def main(argv=None):
     jobs_total = len(open_tasks)
     ctx = multiprocessing.get_context("fork")
     nworkers = max(1, args.jobs)
-    with cf.ProcessPoolExecutor(max_workers=nworkers, mp_context=ctx) as ex:
+    from concurrent.futures.process import BrokenProcessPool
+
+    pool_restarts = 0
+    pool_errors = []
+    ex = cf.ProcessPoolExecutor(max_workers=nworkers, mp_context=ctx)
+    try:
         inflight = {}
         while tasks or inflight:
             while tasks and len(inflight) < nworkers * 2:
                 t = tasks.popleft()
                 inflight[ex.submit(_task, t)] = t
             done, _ = cf.wait(list(inflight), timeout=1.0, return_when=cf.FIRST_COMPLETED)
+            broken = False
             for fut in done:
                 t = inflight.pop(fut)
-                hname, params, res = fut.result()
+                try:
+                    hname, params, res = fut.result()
+                except BrokenProcessPool:
+                    # a worker process died (e.g. a crash inside the solver library): every
+                    # in-flight task is lost with it; start a new pool and run them again
+                    broken = True
+                    tasks.appendleft(t)
+                    continue
                 left = res.leftover
                 res.leftover = []
                 results[hname].merge(res)
                 open_tasks[_jk(t)] += len(left) - 1
                 for pre in left:
                     tasks.append((t[0], t[1], t[2], pre, t[4], t[5]))
+            if broken:
+                pool_restarts += 1
+                for fut, t in list(inflight.items()):
+                    tasks.appendleft(t)
+                inflight.clear()
+                ex.shutdown(wait=False, cancel_futures=True)
+                if pool_restarts > 5:
+                    pool_errors.append("worker processes died %d times (solver library crash?); giving up" % pool_restarts)
+                    tasks.clear()
+                    break
+                ex = cf.ProcessPoolExecutor(max_workers=nworkers, mp_context=ctx)
+                continue
             if time.time() > deadline and (tasks or inflight):
                 budget_exhausted = True
                 for fut in inflight:
@@ -212,12 +237,14 @@ def main(argv=None):
                         pass
                 inflight.clear()
                 break
+    finally:
+        ex.shutdown(wait=False, cancel_futures=True)
 
     # ------------------------------------------------------------------ triage
     rc = 0
     lines = []
     total = Result()
-    engine_errors = []
+    engine_errors = list(pool_errors)
     inconclusive = []
     all_viol = []
     all_known = []
@@ -335,6 +362,8 @@ def main(argv=None):
         rc = 3
     elif inconclusive:
         rc = 2
+    if pool_restarts:
+        lines.append("NOTE: the worker pool was restarted %d time(s) after a worker process died; the lost tasks were run again" % pool_restarts)
     for e in engine_errors:
         lines.append("ENGINE-ERROR property=%s %s" % (prop, e))
     for e in inconclusive:
